@@ -433,8 +433,12 @@ class _Env:
             self.exec_import(st)
         elif isinstance(st, (ast.FunctionDef, ast.AsyncFunctionDef)):
             q = f'{self.qualprefix}{st.name}'
-            self.store(st.name, FuncVal(self.m.name, q, st,
-                                        closure=self.l if (self.depth and not self.is_class_body) else None))
+            fv = FuncVal(self.m.name, q, st, closure=self.l if (self.depth and not self.is_class_body) else None)
+            if self.depth and not self.is_class_body and st.decorator_list and getattr(self.f, 'apply_nested_decorators', False):
+                # opt-in: decorators of functions defined inside interpreted functions are applied
+                for d in reversed(st.decorator_list):
+                    fv = self.apply(self.ev(d), [fv], {}, None)
+            self.store(st.name, fv)
         elif isinstance(st, ast.ClassDef):
             self.store(st.name, ClassVal(self.m.name, f'{self.qualprefix}{st.name}', st, self.f))
         elif isinstance(st, ast.If):
